@@ -36,6 +36,24 @@ func (w *World) SetupPools(n int) error {
 	return nil
 }
 
+// ratioPow returns ratio^k exactly.
+func ratioPow(ratio string, k int64) *big.Rat {
+	b, ok := new(big.Rat).SetString(ratio)
+	if !ok {
+		panic("bad ratio " + ratio)
+	}
+	n := k
+	if n < 0 {
+		n = -n
+	}
+	e := big.NewInt(n)
+	v := new(big.Rat).SetFrac(new(big.Int).Exp(b.Num(), e, nil), new(big.Int).Exp(b.Denom(), e, nil))
+	if k < 0 {
+		v.Inv(v)
+	}
+	return v
+}
+
 func pow10(n int) *big.Int { return new(big.Int).Exp(big.NewInt(10), big.NewInt(int64(n)), nil) }
 
 // tick span appropriate for the pool's ratio (keeps prices within a few e-folds)
@@ -86,6 +104,16 @@ func (w *World) GenOp(ctx sdk.Context, p PoolInfo) Op {
 			}
 			lo := -int64(1 + r.Intn(int(sp)))
 			up := int64(1 + r.Intn(int(sp)))
+			if p.Centre != 0 {
+				// price = ratio^centre: a base amount large enough for the quote amount to be several units
+				base = new(big.Int).Mul(r.LogUniform(8), pow10(14))
+				pr := ratioPow(p.Ratio, p.Centre)
+				quote = new(big.Int).Div(new(big.Int).Mul(new(big.Int).Mul(base, num), pr.Num()), new(big.Int).Mul(big.NewInt(10000), pr.Denom()))
+				if quote.Sign() == 0 {
+					quote.SetInt64(1)
+				}
+				lo, up = p.Centre+lo, p.Centre+up
+			}
 			// centre the range roughly on the tick the price will get: ln(q/b)/ln(ratio) is within +-span
 			return Op{Kind: "create", Sender: sender, Lower: lo, Upper: up, Base: base, Quote: quote, MinBase: big.NewInt(0), MinQuote: big.NewInt(0), Tag: "first"}
 		}
